@@ -1603,6 +1603,8 @@ class Var(SymbolNode):
                 self.has_explicit_value,
                 self.allow_incompatible_override,
                 self.is_sentinel,
+                self.is_self,
+                self.is_cls,
             ],
         )
         write_literal(data, self.final_value)
@@ -1641,7 +1643,9 @@ class Var(SymbolNode):
             v.has_explicit_value,
             v.allow_incompatible_override,
             v.is_sentinel,
-        ) = read_flags(data, num_flags=20)
+            v.is_self,
+            v.is_cls,
+        ) = read_flags(data, num_flags=22)
         tag = read_tag(data)
         if tag == LITERAL_COMPLEX:
             v.final_value = complex(read_float_bare(data), read_float_bare(data))
